@@ -107,7 +107,10 @@ def sprt_etas(N, eta, xs, u, clip):
 
 
 def sprt(N, t, u, xs, eta, clip):
-    return alpha(N, t, u, xs, sprt_etas(N, eta, xs, u, clip), clamp_last=False)
+    # an alternative at or below the null mean is no alternative to "mean <= t": it counts as the null mean itself
+    # (factor 1); for eta > t this changes nothing, since (N eta - S) > (N t - S) at every draw
+    es = [max(e, m) for e, m in zip(sprt_etas(N, eta, xs, u, clip), mu_seq(N, t, xs))]
+    return alpha(N, t, u, xs, es, clamp_last=False)
 
 
 def kaplan_kolmogorov(N, t, g, xs):
